@@ -34,7 +34,7 @@ func runC28(c *core.Ctx) error {
 		return err
 	}
 	defer l.Close()
-	bases, err := chooseBases(c, l, 11, c.Pick(2, 10), c.Pick(150, 400))
+	bases, err := chooseBases(c, l, 12, c.Pick(2, 10), c.Pick(150, 400))
 	if err != nil {
 		return err
 	}
